@@ -24,6 +24,10 @@ RULE = _c20.RULE
 
 
 def run(ctx):
+    import importlib.util, os as _os
+    _sp = importlib.util.spec_from_file_location("_writers", _os.path.join(_os.path.dirname(__file__), "_writers.py"))
+    _w = importlib.util.module_from_spec(_sp); _sp.loader.exec_module(_w)
+    _w.run(ctx, ['x/apps/keeper', 'x/apps'])
     ctx.lean_proofs("Props.C28")
     ctx.rule(RULE.replace("and in 1 history of 4 sends to the pool's module address", "no sends to the pool's module address (that is C20's finding)"))
     ctx.trust("BigInt/BigDec overflow panics are not modelled (amounts < 2^63 in the harness)",
